@@ -12,38 +12,45 @@ import itertools
 
 from .. import core, obs, scopes as sc
 
-APPLIED = {"formals_arg", "formals_default", "lam_arg"}
+APPLIED = {"formals_arg", "formals_default", "lam_arg", "formals_idarg"}
 LETS = {"let_a", "let_alias", "let_none", "let_selfcycle", "let_2cycle"}
 
 
+def _applied_body(call):
+    """If `call` applies a literal function definition, return its body with the call's scopes attached
+    (what a container does for its values), else None."""
+    from nix_manipulator.expressions.function.call import FunctionCall
+    from nix_manipulator.expressions.function.definition import FunctionDefinition
+    from nix_manipulator.expressions.parenthesis import Parenthesis
+    from nix_manipulator.resolution import attach_resolution_context
+
+    if not isinstance(call, FunctionCall):
+        return None
+    fn = call.name
+    while isinstance(fn, Parenthesis):
+        fn = fn.value
+    if not isinstance(fn, FunctionDefinition) or fn.output is None:
+        return None
+    attach_resolution_context(fn.output, owner=call)
+    return fn.output
+
+
 def navigate(p: sc.Program):
-    """Reach the reference through the document. -> Identifier-like object, or raises Unreachable"""
+    """Reach the reference through the document. -> (source, Identifier-like object), or raises Unreachable"""
     from nix_manipulator import parse
 
     src = parse(p.text)
-    applied = [i for i, k in enumerate(p.levels) if k in APPLIED]
-    if not applied:
-        cur = src
-    elif len(applied) == 1 and all(p.levels[j] in LETS for j in range(applied[0])):
-        from nix_manipulator.expressions.function.call import FunctionCall
-        from nix_manipulator.expressions.parenthesis import Parenthesis
-        from nix_manipulator.resolution import attach_resolution_context
-
-        call = src.expr
-        if not isinstance(call, FunctionCall):
-            raise Unreachable("top expression is not the call")
-        fn = call.name
-        while isinstance(fn, Parenthesis):
-            fn = fn.value
-        body = fn.output
-        attach_resolution_context(body, owner=call)
+    cur = src
+    body = _applied_body(src.expr)
+    if body is not None:
         cur = body
-    else:
-        raise Unreachable("applied function below another construct: body not reachable through the mapping API")
     for k in p.keys:
         if not hasattr(cur, "__getitem__"):
             raise Unreachable(f"{type(cur).__name__} is not subscriptable")
         cur = cur[k]
+        body = _applied_body(cur)
+        if body is not None:
+            cur = body
     return src, cur
 
 
@@ -92,6 +99,8 @@ def observe(p: sc.Program):
 def judge(p: sc.Program):
     """-> (outcome_tag, [(cls, detail)])"""
     exp = sc.resolve(p)
+    if exp[0] == "unbound-chain":
+        exp = ("unbound",)  # for resolution both mean: no value can be designated
     got = observe(p)
     if got[0] == "unreachable":
         return "unreachable", []
@@ -364,8 +373,19 @@ def judge_c11(p: sc.Program, mode: str):
         return "unreachable", []
     err0, tin = int_tokens(p.text)
     if exp[0] == "bound":
-        want = [(t, "77") if (t == "integer_expression" and x == str(exp[1])) else (t, x) for t, x in tin]
-        label = f"the binding holding {exp[1]}"
+        if exp[1] == sc.SAME:
+            k = sc.same_ordinal(p, exp[2])
+            want = list(tin)
+            seen = -1
+            for idx, (t, x) in enumerate(tin):
+                if t == "integer_expression" and x == str(sc.SAME):
+                    seen += 1
+                    if seen == k:
+                        want[idx] = (t, "77")
+            label = f"occurrence {k} of the literal {sc.SAME} (innermost visible layer)"
+        else:
+            want = [(t, "77") if (t == "integer_expression" and x == str(exp[1])) else (t, x) for t, x in tin]
+            label = f"the binding holding {exp[1]}"
     elif exp[0] == "unbound" and mode == "cli":
         # the binding at the path itself is overwritten: the reference token (value of x) becomes 77
         idx = _ref_token_index(p, tin)
@@ -412,7 +432,7 @@ def judge11_memo(levels, inner, mode):
     return _memo11[k]
 
 
-C11_INNERS = ["plain", "plain_a", "rec_a", "nested_plain_a", "nested_rec_a", "chain_in_rec"]
+C11_INNERS = ["plain", "plain_a", "rec_a", "nested_plain_a", "nested_rec_a", "chain_in_rec", "rec_inherit_from_shadowed"]
 
 
 def work_c11(chunk):
